@@ -1,8 +1,8 @@
 (* C17: the model of the code (two tables: hostname_resolvers + retransmissions) refines the
-   reference machine of the property text (one table of searches) on every history that is
-   never `late`; so chk_C17 accepts the model's trace.  No axioms. *)
+   reference machine of the property text (one table of searches) on every well-formed
+   history; so chk_C17 accepts the model's trace.  No axioms. *)
 From Coq Require Import List NArith Bool Lia Permutation.
-From Mdns Require Import Bytes ParamsHostres HostresBase HostresModel HostresSpec.
+From Mdns Require Import Bytes ParamsHostres HostresBase HostresModel HostresSpec HostresPinned.
 Import ListNotations.
 Open Scope N_scope.
 
@@ -152,18 +152,43 @@ Definition armed1 (k : search) : list rerun :=
   end.
 Definition armed (l : list search) : list rerun := flat_map armed1 l.
 
+(* a queued retransmission whose search has ended (deadline): it is due and finds no resolver,
+   so it will be dropped without effect in the retransmission phase of the same iteration *)
+Definition orph_ok (now : N) (res : list resolver) (rr : rerun) : Prop :=
+  hp_rerun_due now (rr_time rr) = true /\ find_res (lower (rr_host rr)) res = None.
+
+(* inside an iteration at time now; between iterations orph = [] *)
+Record Rel2 (now : N) (s : st) (p : sst) (orph : list rerun) : Prop := mkRel2 {
+  rel2_cache : s_cache s = ss_cache p;
+  rel2_res : s_res s = res_view p;
+  rel2_retr : Permutation (s_retr s) (armed (ss_searches p) ++ orph);
+  rel2_open : s_open s = ss_open p;
+  rel2_orph : Forall (orph_ok now (s_res s)) orph }.
+
 Record Rel (s : st) (p : sst) : Prop := mkRel {
   rel_cache : s_cache s = ss_cache p;
   rel_res : s_res s = res_view p;
   rel_retr : Permutation (s_retr s) (armed (ss_searches p));
   rel_open : s_open s = ss_open p }.
 
+(* the next query of a search is before its deadline *)
+Definition before_deadline (k : search) : Prop :=
+  forall t d dl, sk_next k = Some (t, d) -> sk_deadline k = Some dl -> t < dl.
+
 Definition keys_ok (l : list search) : Prop :=
-  NoDup (map sk_key l) /\ Forall (fun k => sk_key k = lower (sk_host k)) l.
+  NoDup (map sk_key l) /\ Forall (fun k => sk_key k = lower (sk_host k)) l /\ Forall before_deadline l.
 
 (* fut: the channels of the resolve calls still to come *)
 Definition Inv (p : sst) (fut : list N) : Prop :=
   keys_ok (ss_searches p) /\ NoDup (map sk_chan (ss_searches p) ++ fut).
+
+Lemma next_after_before now d dl t d' x :
+  next_after now d dl = Some (t, d') -> dl = Some x -> t < x.
+Proof.
+  unfold next_after. intros H ->. rewrite pin_host_rearm in H.
+  destruct (now + d * hp_host_delay_unit_ms <? x) eqn:E; [|discriminate].
+  inversion H; subst. apply N.ltb_lt. exact E.
+Qed.
 
 Lemma find_res_view k l : find_res k (map res_of l) = option_map res_of (find_search k l).
 Proof. induction l as [|x t IH]; simpl; [reflexivity|]. destruct (beq k (sk_key x)); [reflexivity|exact IH]. Qed.
@@ -175,6 +200,26 @@ Proof.
   - subst. rewrite beq_refl. reflexivity.
   - destruct (beq (sk_key k) (sk_key x)) eqn:E; [|apply IH; assumption].
     apply beq_eq in E. exfalso. apply H1. rewrite <- E. apply in_map. exact Hin.
+Qed.
+
+Lemma find_search_absent a l : ~ In a (map sk_key l) -> find_search a l = None.
+Proof.
+  induction l as [|x t IH]; simpl; intros H; [reflexivity|].
+  destruct (beq a (sk_key x)) eqn:E; [apply beq_eq in E; exfalso; apply H; left; congruence|].
+  apply IH. intros Hin. apply H. right. exact Hin.
+Qed.
+
+Lemma find_search_filter_none f l k :
+  NoDup (map sk_key l) -> In k l -> f k = false -> find_search (sk_key k) (filter f l) = None.
+Proof.
+  intros Hnd Hin Hf. apply find_search_absent. intros H.
+  apply in_map_iff in H as [y [Ey Hy]]. apply filter_In in Hy as [Hy Hfy].
+  assert (y = k).
+  { clear -Hnd Hin Hy Ey. induction l as [|x t IH]; simpl in *; [contradiction|].
+    inversion Hnd; subst. destruct Hin as [->|Hin], Hy as [->|Hy]; auto.
+    - exfalso. apply H1. rewrite <- Ey. apply in_map. exact Hy.
+    - exfalso. apply H1. rewrite Ey. apply in_map. exact Hin. }
+  subst. congruence.
 Qed.
 
 Lemma del_res_view k l : del_res k (map res_of l) = map res_of (del_search k l).
@@ -195,6 +240,22 @@ Proof.
     + rewrite E. exact IH.
 Qed.
 
+Lemma find_set_res_other a x l : beq a (r_key x) = false -> find_res a (set_res x l) = find_res a l.
+Proof.
+  intros H. induction l as [|y t IH]; simpl.
+  - rewrite H. reflexivity.
+  - destruct (beq (r_key x) (r_key y)) eqn:E; simpl.
+    + rewrite H. apply beq_eq in E. rewrite <- E, H. reflexivity.
+    + destruct (beq a (r_key y)); [reflexivity|exact IH].
+Qed.
+
+Lemma find_del_res_none a k l : find_res a l = None -> find_res a (del_res k l) = None.
+Proof.
+  unfold del_res. induction l as [|y t IH]; simpl; [auto|].
+  destruct (beq a (r_key y)) eqn:E; [discriminate|]. intros H.
+  destruct (negb (beq k (r_key y))); simpl; [rewrite E|]; apply IH; exact H.
+Qed.
+
 Lemma in_keys_set_search a x l :
   In a (map sk_key (set_search x l)) -> a = sk_key x \/ In a (map sk_key l).
 Proof.
@@ -213,28 +274,36 @@ Proof.
     destruct (IH H); auto.
 Qed.
 
-Lemma keys_ok_set_search x l :
-  sk_key x = lower (sk_host x) -> keys_ok l -> keys_ok (set_search x l).
+Lemma Forall_set_search (P : search -> Prop) x l : P x -> Forall P l -> Forall P (set_search x l).
 Proof.
-  intros Hx [Hnd Hf]. split.
-  - induction l as [|y t IH]; simpl; [repeat constructor; intros []|].
-    inversion Hnd; subst. inversion Hf; subst.
+  intros Hx. induction l as [|y t IH]; simpl; intros H; [repeat constructor; exact Hx|].
+  inversion H; subst. destruct (beq (sk_key x) (sk_key y)); constructor; auto.
+Qed.
+
+Lemma keys_ok_set_search x l :
+  sk_key x = lower (sk_host x) -> before_deadline x -> keys_ok l -> keys_ok (set_search x l).
+Proof.
+  intros Hx Hbd [Hnd [Hf Hb]]. split; [|split].
+  - clear Hf Hb. induction l as [|y t IH]; simpl; [repeat constructor; intros []|].
+    inversion Hnd; subst.
     destruct (beq (sk_key x) (sk_key y)) eqn:E; simpl.
     + apply beq_eq in E. rewrite E. constructor; assumption.
     + constructor; [|apply IH; assumption].
       intros Hin. apply in_keys_set_search in Hin as [Hin|Hin]; [|contradiction].
       rewrite Hin, beq_refl in E. discriminate.
-  - induction l as [|y t IH]; simpl; [repeat constructor; exact Hx|].
-    inversion Hnd; subst. inversion Hf; subst.
-    destruct (beq (sk_key x) (sk_key y)); constructor; auto.
+  - apply Forall_set_search; assumption.
+  - apply Forall_set_search; assumption.
 Qed.
+
+Lemma Forall_filter' {A} (P : A -> Prop) g (l : list A) : Forall P l -> Forall P (filter g l).
+Proof. rewrite !Forall_forall. intros H x Hx. apply filter_In in Hx as [Hx _]. apply H. exact Hx. Qed.
 
 Lemma keys_ok_filter g l : keys_ok l -> keys_ok (filter g l).
 Proof.
-  intros [Hnd Hf]. split.
+  intros [Hnd [Hf Hb]]. split; [|split].
   - rewrite <- (app_nil_r (map sk_key (filter g l))). apply NoDup_map_filter_app. rewrite app_nil_r. exact Hnd.
-  - apply Forall_forall. intros k Hk. apply filter_In in Hk as [Hk _].
-    rewrite Forall_forall in Hf. apply Hf. exact Hk.
+  - apply Forall_filter'. exact Hf.
+  - apply Forall_filter'. exact Hb.
 Qed.
 
 Lemma chans_set_search x l fut :
@@ -283,32 +352,51 @@ Proof.
     + unfold armed in *. simpl. rewrite <- app_assoc. apply Permutation_app_head. apply IH. assumption.
 Qed.
 
+Lemma armed_in rr l :
+  In rr (armed l) -> exists k t d, In k l /\ sk_next k = Some (t, d) /\ rr = mkRR t (sk_host k) d (sk_chan k).
+Proof.
+  unfold armed. intros H. apply in_flat_map in H as [k [Hk H]].
+  unfold armed1 in H. destruct (sk_next k) as [[t d]|] eqn:E; [|contradiction].
+  destruct H as [H|[]]. exists k, t, d. auto.
+Qed.
+
 Lemma armed_chans_in rr l : In rr (armed l) -> exists k, In k l /\ rr_chan rr = sk_chan k /\ rr_host rr = sk_host k.
 Proof.
-  unfold armed. intros H. apply in_flat_map in H as [k [Hk H]]. exists k. split; [exact Hk|].
-  unfold armed1 in H. destruct (sk_next k) as [[t d]|]; [|contradiction].
-  destruct H as [H|[]]. subst. simpl. auto.
+  intros H. apply armed_in in H as [k [t [d [Hk [_ ->]]]]]. exists k. simpl. auto.
+Qed.
+
+Lemma armed_partition f l :
+  Permutation (armed l) (armed (filter (fun k => negb (f k)) l) ++ armed (filter f l)).
+Proof.
+  unfold armed. induction l as [|x t IH]; simpl; [constructor|].
+  destruct (f x); simpl.
+  - eapply Permutation_trans; [apply Permutation_app_head; exact IH|]. apply Permutation_app_swap_app.
+  - rewrite <- app_assoc. apply Permutation_app_head. exact IH.
 Qed.
 
 (* ---------------------------------------------------------------- phase 2: deadlines *)
 Lemma timeouts_rel now s p fut :
-  Rel s p -> Inv p fut -> existsb (sk_late now) (ss_searches p) = false ->
-  exists s' p' e, do_timeouts now s = (s', e) /\ sp_timeouts now p = (p', e) /\ Rel s' p' /\ Inv p' fut.
+  Rel s p -> Inv p fut ->
+  exists s' p' e, do_timeouts now s = (s', e) /\ sp_timeouts now p = (p', e)
+                  /\ Rel2 now s' p' (armed (filter (sk_timed_out now) (ss_searches p))) /\ Inv p' fut.
 Proof.
-  intros [R1 R2 R3 R4] [Hk Hc] Hlate.
+  intros [R1 R2 R3 R4] [Hk Hc].
   unfold do_timeouts, sp_timeouts. do 3 eexists. split; [reflexivity|]. split.
   - f_equal. rewrite R2. unfold res_view. rewrite filter_map_comm, flat_map_map. reflexivity.
   - split.
     + constructor; simpl; try assumption.
       * rewrite R2. unfold res_view. rewrite filter_map_comm. reflexivity.
-      * assert (E : armed (filter (fun k => negb (sk_timed_out now k)) (ss_searches p)) = armed (ss_searches p)).
-        { clear -Hlate. induction (ss_searches p) as [|x t IH]; simpl in *; [reflexivity|].
-          apply orb_false_iff in Hlate as [H1 H2]. unfold armed in *.
-          destruct (sk_timed_out now x) eqn:E; simpl.
-          - rewrite IH by assumption. unfold sk_late in H1. rewrite E in H1. simpl in H1.
-            unfold armed1. destruct (sk_next x); [discriminate|reflexivity].
-          - rewrite IH by assumption. reflexivity. }
-        rewrite E. exact R3.
+      * eapply Permutation_trans; [exact R3|]. apply armed_partition.
+      * apply Forall_forall. intros rr Hin.
+        apply armed_in in Hin as [k [t [d [Hk0 [Hn ->]]]]]. apply filter_In in Hk0 as [Hk0 Hto].
+        destruct Hk as [Hnd [Hf Hb]]. rewrite Forall_forall in Hf, Hb.
+        unfold orph_ok. simpl. split.
+        -- unfold sk_timed_out in Hto. destruct (sk_deadline k) as [dl|] eqn:Ed; [|discriminate].
+           rewrite pin_deadline_reached in Hto. apply N.leb_le in Hto.
+           pose proof (Hb k Hk0 t d dl Hn Ed). rewrite pin_rerun_due. apply N.leb_le. lia.
+        -- rewrite R2. unfold res_view. rewrite filter_map_comm, find_res_view, <- (Hf k Hk0).
+           rewrite (find_search_filter_none (fun k0 => negb (timed_out now (res_of k0))) _ k Hnd Hk0); [reflexivity|].
+           change (timed_out now (res_of k)) with (sk_timed_out now k). rewrite Hto. reflexivity.
     + split; [apply keys_ok_filter; exact Hk|]. simpl. apply NoDup_map_filter_app. exact Hc.
 Qed.
 
@@ -323,66 +411,89 @@ Proof.
   rewrite find_set_res. reflexivity.
 Qed.
 
-Lemma call_rel now s p c fut :
-  Rel s p -> Inv p (chans_of_calls [c] ++ fut) ->
-  exists s' p' e q, exec_call now s c = (s', e, q) /\ sp_call now p c = (p', e, q) /\ Rel s' p' /\ Inv p' fut.
+Lemma orph_filter now res res' k orph :
+  Forall (orph_ok now res) orph ->
+  (forall rr, In rr orph -> negb (beq (lower (rr_host rr)) k) = true ->
+              find_res (lower (rr_host rr)) res' = None) ->
+  Forall (orph_ok now res') (filter (fun rr => negb (beq (lower (rr_host rr)) k)) orph).
 Proof.
-  intros [R1 R2 R3 R4] [[Hnd Hf] Hc]. destruct c as [host timeout chan|host]; simpl in *.
+  intros H Hres. rewrite Forall_forall in *. intros rr Hin. apply filter_In in Hin as [Hin Hp].
+  destruct (H rr Hin) as [Hd _]. split; [exact Hd|apply Hres; assumption].
+Qed.
+
+Lemma call_rel now s p c fut orph :
+  Rel2 now s p orph -> Inv p (chans_of_calls [c] ++ fut) ->
+  exists s' p' e q orph',
+    exec_call now s c = (s', e, q) /\ sp_call now p c = (p', e, q) /\ Rel2 now s' p' orph' /\ Inv p' fut.
+Proof.
+  intros [R1 R2 R3 R4 R5] [[Hnd [Hf Hb]] Hc]. destruct c as [host timeout chan|host]; simpl in *.
   - (* resolve *)
     set (k := lower host). set (dl := option_map (sat_add now) timeout).
     unfold send_and_rearm. simpl.
     rewrite (rearm_ok_set (s_res s) k host chan dl _ eq_refl).
-    do 4 eexists. split; [reflexivity|]. split.
+    set (x := mkSearch k host chan dl (next_after now hp_host_first_delay dl) now timeout 1 now).
+    set (P := fun rr => negb (beq (lower (rr_host rr)) k)).
+    do 4 eexists. exists (filter P orph). split; [reflexivity|]. split.
     + rewrite R1. reflexivity.
     + split.
       * constructor; simpl.
         -- exact R1.
-        -- rewrite R2. unfold res_view.
-           change (mkRes k chan dl) with (res_of (mkSearch k host chan dl (next_after now hp_host_first_delay dl) now timeout 1 now)).
-           apply set_res_view.
-        -- set (x := mkSearch k host chan dl (next_after now hp_host_first_delay dl) now timeout 1 now).
-           eapply Permutation_trans; [|apply Permutation_sym; apply (armed_set_search x); exact Hnd].
-           simpl. fold k.
-           assert (E : Permutation (filter (fun rr => negb (beq (lower (rr_host rr)) k)) (s_retr s))
-                                   (armed (del_search k (ss_searches p)))).
-           { rewrite <- armed_filter_key by exact Hf. apply Permutation_filter'. exact R3. }
+        -- rewrite R2. unfold res_view. change (mkRes k chan dl) with (res_of x). apply set_res_view.
+        -- assert (E : Permutation (filter P (s_retr s)) (armed (del_search k (ss_searches p)) ++ filter P orph)).
+           { rewrite <- (armed_filter_key k _ Hf). rewrite <- filter_app. apply Permutation_filter'. exact R3. }
+           assert (E2 : Permutation (armed (set_search x (ss_searches p)) ++ filter P orph)
+                                    ((armed (del_search k (ss_searches p)) ++ filter P orph) ++ armed1 x)).
+           { eapply Permutation_trans; [apply Permutation_app_tail; apply (armed_set_search x); exact Hnd|].
+             simpl. rewrite <- !app_assoc. apply Permutation_app_head. apply Permutation_app_comm. }
+           eapply Permutation_trans; [|apply Permutation_sym; exact E2].
            unfold armed1, x. simpl. unfold next_after.
            destruct dl as [d|]; [destruct (hp_host_rearm _ d)|]; simpl;
              rewrite ?app_nil_r; try exact E; apply Permutation_app_tail; exact E.
         -- rewrite R4. reflexivity.
-      * split; [apply keys_ok_set_search; [reflexivity|split; assumption]|].
-        simpl. apply (chans_set_search (mkSearch k host chan dl (next_after now hp_host_first_delay dl) now timeout 1 now)). exact Hc.
+        -- apply (orph_filter now (s_res s)); [exact R5|].
+           intros rr Hin Hp. rewrite find_set_res_other by (simpl; apply negb_true_iff; exact Hp).
+           rewrite Forall_forall in R5. apply (R5 rr Hin).
+      * split.
+        -- apply keys_ok_set_search; [reflexivity| |split; [|split]; assumption].
+           intros t d dl0 Hn Hd. simpl in Hn, Hd. eapply next_after_before; eassumption.
+        -- simpl. apply (chans_set_search x). exact Hc.
   - (* stop *)
     rewrite R2. unfold res_view. rewrite find_res_view.
     destruct (find_search (lower host) (ss_searches p)) as [x|] eqn:Ef; simpl.
-    + do 4 eexists. split; [reflexivity|]. split; [reflexivity|]. split.
+    + do 4 eexists. exists (filter (fun rr => negb (beq (lower (rr_host rr)) (lower host))) orph).
+      split; [reflexivity|]. split; [reflexivity|]. split.
       * constructor; simpl; try assumption.
         -- unfold res_view. apply del_res_view.
-        -- rewrite <- armed_filter_key by exact Hf. apply Permutation_filter'. exact R3.
-      * split; [apply keys_ok_filter; split; assumption|]. simpl. apply NoDup_map_filter_app. exact Hc.
-    + do 4 eexists. split; [reflexivity|]. split; [reflexivity|]. split.
-      * constructor; assumption.
-      * split; [split|]; assumption.
+        -- rewrite <- (armed_filter_key _ _ Hf). rewrite <- filter_app. apply Permutation_filter'. exact R3.
+        -- apply (orph_filter now (s_res s)); [exact R5|].
+           intros rr Hin _. apply find_del_res_none.
+           pose proof R2 as R2'. unfold res_view in R2'. rewrite <- R2'. rewrite Forall_forall in R5. apply (R5 rr Hin).
+      * split; [apply keys_ok_filter; split; [|split]; assumption|]. simpl. apply NoDup_map_filter_app. exact Hc.
+    + do 4 eexists. exists orph. split; [reflexivity|]. split; [reflexivity|]. split.
+      * constructor; try assumption.
+      * split; [split; [|split]|]; assumption.
 Qed.
 
-Lemma calls_rel now cs : forall s p fut e0 q0,
-  Rel s p -> Inv p (chans_of_calls cs ++ fut) ->
-  exists s' p' e q,
+Lemma calls_rel now cs : forall s p fut e0 q0 orph,
+  Rel2 now s p orph -> Inv p (chans_of_calls cs ++ fut) ->
+  exists s' p' e q orph',
     fold_left (fun acc c => let '(s0, e0, q0) := acc in
                             let '(s', e, q) := exec_call now s0 c in (s', e0 ++ e, q0 ++ q)) cs (s, e0, q0) = (s', e, q)
     /\ fold_left (fun acc c => let '(s0, e0, q0) := acc in
                                let '(s', e, q) := sp_call now s0 c in (s', e0 ++ e, q0 ++ q)) cs (p, e0, q0) = (p', e, q)
-    /\ Rel s' p' /\ Inv p' fut.
+    /\ Rel2 now s' p' orph' /\ Inv p' fut.
 Proof.
-  induction cs as [|c t IH]; intros s p fut e0 q0 HR HI; simpl.
-  - do 4 eexists. repeat split; try reflexivity; try apply HR; apply HI.
+  induction cs as [|c t IH]; intros s p fut e0 q0 orph HR HI; simpl.
+  - do 4 eexists. exists orph. repeat split; try reflexivity; try apply HR; apply HI.
   - assert (HI' : Inv p (chans_of_calls [c] ++ (chans_of_calls t ++ fut))).
     { unfold chans_of_calls in *. simpl in *. rewrite app_nil_r. rewrite <- app_assoc in HI. exact HI. }
-    destruct (call_rel now s p c _ HR HI') as [s1 [p1 [e1 [q1 [H1 [H2 [HR1 HI1]]]]]]].
-    rewrite H1, H2. apply IH; assumption.
+    destruct (call_rel now s p c _ orph HR HI') as [s1 [p1 [e1 [q1 [orph1 [H1 [H2 [HR1 HI1]]]]]]]].
+    rewrite H1, H2. apply (IH s1 p1 fut _ _ orph1); assumption.
 Qed.
 
 (* ---------------------------------------------------------------- phase 4: scheduled queries *)
+Definition rr_live (res : list resolver) (rr : rerun) : bool :=
+  match find_res (lower (rr_host rr)) res with Some _ => true | None => false end.
 Definition rr_entry (now : N) (res : list resolver) (rr : rerun) : list rerun :=
   let t := now + rr_delay rr * hp_host_delay_unit_ms in
   if rearm_ok res (rr_host rr) t
@@ -390,22 +501,27 @@ Definition rr_entry (now : N) (res : list resolver) (rr : rerun) : list rerun :=
   else [].
 Definition rr_ev (rr : rerun) : N * ev := (rr_chan rr, EStarted (rr_host rr)).
 Definition rr_q (rr : rerun) : query := host_query (rr_host rr).
+Definition when_live {A} (res : list resolver) (f : rerun -> list A) (rr : rerun) : list A :=
+  if rr_live res rr then f rr else [].
 
 Lemma exec_rerun_eq now s0 evs qs rr :
   exec_rerun now (s0, evs, qs) rr
-  = (mkSt (s_cache s0) (s_res s0) (s_retr s0 ++ rr_entry now (s_res s0) rr) (s_open s0),
-     evs ++ [rr_ev rr], qs ++ [rr_q rr]).
+  = (mkSt (s_cache s0) (s_res s0) (s_retr s0 ++ when_live (s_res s0) (rr_entry now (s_res s0)) rr) (s_open s0),
+     evs ++ when_live (s_res s0) (fun r => [rr_ev r]) rr, qs ++ when_live (s_res s0) (fun r => [rr_q r]) rr).
 Proof.
-  unfold exec_rerun, send_and_rearm, rr_entry, rr_ev, rr_q. simpl.
-  destruct (rearm_ok (s_res s0) (rr_host rr) (now + rr_delay rr * hp_host_delay_unit_ms)); simpl;
-    rewrite ?app_nil_r; destruct s0; reflexivity.
+  unfold exec_rerun, when_live, rr_live.
+  destruct (find_res (lower (rr_host rr)) (s_res s0)).
+  - unfold send_and_rearm, rr_entry, rr_ev, rr_q. simpl.
+    destruct (rearm_ok (s_res s0) (rr_host rr) (now + rr_delay rr * hp_host_delay_unit_ms)); simpl;
+      rewrite ?app_nil_r; destruct s0; reflexivity.
+  - rewrite !app_nil_r. destruct s0; reflexivity.
 Qed.
 
 Lemma reruns_fold now res : forall due s0 evs qs,
   s_res s0 = res ->
   fold_left (exec_rerun now) due (s0, evs, qs)
-  = (mkSt (s_cache s0) res (s_retr s0 ++ flat_map (rr_entry now res) due) (s_open s0),
-     evs ++ map rr_ev due, qs ++ map rr_q due).
+  = (mkSt (s_cache s0) res (s_retr s0 ++ flat_map (when_live res (rr_entry now res)) due) (s_open s0),
+     evs ++ flat_map (when_live res (fun r => [rr_ev r])) due, qs ++ flat_map (when_live res (fun r => [rr_q r])) due).
 Proof.
   induction due as [|rr t IH]; intros s0 evs qs Hres.
   - simpl. rewrite !app_nil_r. destruct s0; simpl in *; subst; reflexivity.
@@ -417,9 +533,30 @@ Lemma do_reruns_closed now s :
   do_reruns now s
   = (mkSt (s_cache s) (s_res s)
           (filter (fun rr => negb (rr_due now rr)) (s_retr s)
-           ++ flat_map (rr_entry now (s_res s)) (filter (rr_due now) (s_retr s))) (s_open s),
-     map rr_ev (filter (rr_due now) (s_retr s)), map rr_q (filter (rr_due now) (s_retr s))).
+           ++ flat_map (when_live (s_res s) (rr_entry now (s_res s))) (filter (rr_due now) (s_retr s))) (s_open s),
+     flat_map (when_live (s_res s) (fun r => [rr_ev r])) (filter (rr_due now) (s_retr s)),
+     flat_map (when_live (s_res s) (fun r => [rr_q r])) (filter (rr_due now) (s_retr s))).
 Proof. unfold do_reruns. rewrite (reruns_fold now (s_res s)) by reflexivity. reflexivity. Qed.
+
+Lemma armed_live l rr : keys_ok l -> In rr (armed l) -> rr_live (map res_of l) rr = true.
+Proof.
+  intros [Hnd [Hf _]] Hin. apply armed_in in Hin as [k [t [d [Hk [_ ->]]]]].
+  unfold rr_live. simpl. rewrite Forall_forall in Hf. rewrite <- (Hf k Hk), find_res_view, (find_search_in l k Hnd Hk).
+  reflexivity.
+Qed.
+
+Lemma when_live_armed {A} l (f : rerun -> list A) rs :
+  keys_ok l -> (forall rr, In rr rs -> In rr (armed l)) ->
+  flat_map (when_live (map res_of l) f) rs = flat_map f rs.
+Proof.
+  intros Hk H. apply flat_map_ext_in. intros rr Hin. unfold when_live. rewrite (armed_live l rr Hk (H rr Hin)). reflexivity.
+Qed.
+
+Lemma when_live_orph {A} now res (f : rerun -> list A) orph :
+  Forall (orph_ok now res) orph -> flat_map (when_live res f) orph = [].
+Proof.
+  induction 1 as [|rr t [_ Hn] _ IH]; simpl; [reflexivity|]. unfold when_live at 1, rr_live. rewrite Hn. exact IH.
+Qed.
 
 Lemma fire_armed now l k :
   keys_ok l -> In k l ->
@@ -427,7 +564,7 @@ Lemma fire_armed now l k :
   ++ flat_map (rr_entry now (map res_of l)) (filter (rr_due now) (armed1 k))
   = armed1 (sk_fire now k).
 Proof.
-  intros [Hnd Hf] Hin. unfold armed1 at 1 2, sk_fire.
+  intros [Hnd [Hf _]] Hin. unfold armed1 at 1 2, sk_fire.
   destruct (sk_next k) as [[t d]|] eqn:En; simpl; [|unfold armed1; rewrite En; reflexivity].
   unfold rr_due. simpl. destruct (hp_rerun_due now t); simpl.
   - rewrite app_nil_r. unfold rr_entry, rearm_ok. simpl.
@@ -467,52 +604,87 @@ Proof.
   apply H2. rewrite <- E, Hc. apply in_map. exact Hk'.
 Qed.
 
-Lemma sends_rel now s p fut :
-  Rel s p -> Inv p fut ->
+Lemma flat_map_singleton {A B} (f : A -> B) l : flat_map (fun x => [f x]) l = map f l.
+Proof. induction l; simpl; [reflexivity|]. rewrite IHl. reflexivity. Qed.
+
+Lemma filter_none {A} (f : A -> bool) l : (forall x, In x l -> f x = false) -> filter f l = [].
+Proof.
+  induction l as [|x t IH]; simpl; intros H; [reflexivity|].
+  rewrite (H x (or_introl eq_refl)). apply IH. intros y Hy. apply H. right. exact Hy.
+Qed.
+
+Lemma sk_fire_keys_ok now l : keys_ok l -> keys_ok (map (sk_fire now) l).
+Proof.
+  intros [Hnd [Hf Hb]]. split; [|split].
+  - rewrite map_map.
+    replace (map (fun x => sk_key (sk_fire now x)) l) with (map sk_key l); [exact Hnd|].
+    apply map_ext. intros k. unfold sk_fire. destruct (sk_next k) as [[t d]|]; [destruct (hp_rerun_due now t)|]; reflexivity.
+  - apply Forall_forall. intros k Hin. apply in_map_iff in Hin as [k0 [E Hin]]. subst.
+    rewrite Forall_forall in Hf. specialize (Hf k0 Hin).
+    unfold sk_fire. destruct (sk_next k0) as [[t d]|]; [destruct (hp_rerun_due now t)|]; simpl; exact Hf.
+  - apply Forall_forall. intros k Hin. apply in_map_iff in Hin as [k0 [E Hin]]. subst.
+    rewrite Forall_forall in Hb. specialize (Hb k0 Hin).
+    unfold sk_fire. destruct (sk_next k0) as [[t d]|] eqn:En; [destruct (hp_rerun_due now t)|]; try exact Hb.
+    intros t' d' dl Hn Hd. simpl in Hn, Hd. eapply next_after_before; eassumption.
+Qed.
+
+Lemma sends_rel now s p fut orph :
+  Rel2 now s p orph -> Inv p fut ->
   exists s' p' em es qm qs,
     do_reruns now s = (s', em, qm) /\ sp_sends now p = (p', es, qs) /\ Rel s' p' /\ Inv p' fut
     /\ (forall c, filter (fun x => fst x =? c) em = filter (fun x => fst x =? c) es)
     /\ Permutation qs qm.
 Proof.
-  intros [R1 R2 R3 R4] [Hk Hc].
+  intros [R1 R2 R3 R4 R5] [Hk Hc].
   rewrite do_reruns_closed. unfold sp_sends. do 6 eexists.
   split; [reflexivity|]. split; [reflexivity|].
-  assert (Hdue : Permutation (filter (rr_due now) (s_retr s)) (filter (rr_due now) (armed (ss_searches p))))
-    by (apply Permutation_filter'; exact R3).
+  set (l := ss_searches p) in *.
+  assert (Horph_due : forall rr, In rr orph -> rr_due now rr = true).
+  { intros rr Hin. rewrite Forall_forall in R5. apply (R5 rr Hin). }
+  assert (Hdue : Permutation (filter (rr_due now) (s_retr s)) (filter (rr_due now) (armed l) ++ orph)).
+  { eapply Permutation_trans; [apply Permutation_filter'; exact R3|]. rewrite filter_app.
+    rewrite (filter_all (rr_due now) orph Horph_due). apply Permutation_refl. }
+  assert (Hkeep : Permutation (filter (fun rr => negb (rr_due now rr)) (s_retr s))
+                              (filter (fun rr => negb (rr_due now rr)) (armed l))).
+  { eapply Permutation_trans; [apply Permutation_filter'; exact R3|]. rewrite filter_app.
+    rewrite (filter_none (fun rr => negb (rr_due now rr)) orph), app_nil_r; [apply Permutation_refl|].
+    intros rr Hin. rewrite (Horph_due rr Hin). reflexivity. }
+  assert (Hres : s_res s = map res_of l) by exact R2.
+  (* what the live-filtered maps give on the due list *)
+  assert (Hfm : forall (A : Type) (f : rerun -> list A),
+            Permutation (flat_map (when_live (s_res s) f) (filter (rr_due now) (s_retr s)))
+                        (flat_map f (filter (rr_due now) (armed l)))).
+  { intros A f. eapply Permutation_trans; [apply Permutation_flat_map; exact Hdue|].
+    rewrite flat_map_app, (when_live_orph now (s_res s) f orph R5), app_nil_r, Hres.
+    rewrite (when_live_armed l f); [apply Permutation_refl|exact Hk|].
+    intros rr Hin. apply filter_In in Hin as [Hin _]. exact Hin. }
   split; [|split; [|split]].
   - constructor; simpl; [exact R1| | |exact R4].
     { rewrite R2. unfold res_view. simpl. rewrite map_map. apply map_ext. intros k.
       unfold sk_fire, res_of. destruct (sk_next k) as [[t d]|]; [destruct (hp_rerun_due now t)|]; reflexivity. }
-    eapply Permutation_trans.
-    { apply Permutation_app.
-      - apply Permutation_filter'. exact R3.
-      - apply Permutation_flat_map. exact Hdue. }
+    eapply Permutation_trans; [apply Permutation_app; [exact Hkeep|apply Hfm]|].
     unfold armed. rewrite !filter_flat_map, flat_map_flat_map, flat_map_map.
     eapply Permutation_trans; [apply Permutation_sym; apply Permutation_flat_map_split|].
-    rewrite R2. unfold res_view.
-    erewrite flat_map_ext_in; [apply Permutation_refl|].
+    rewrite Hres. erewrite flat_map_ext_in; [apply Permutation_refl|].
     intros k Hin. apply fire_armed; assumption.
-  - destruct Hk as [Hnd Hf]. split; [split|]; simpl.
-    + rewrite map_map. simpl.
-      replace (map (fun x => sk_key (sk_fire now x)) (ss_searches p)) with (map sk_key (ss_searches p)); [exact Hnd|].
-      apply map_ext. intros k. unfold sk_fire. destruct (sk_next k) as [[t d]|]; [destruct (hp_rerun_due now t)|]; reflexivity.
-    + apply Forall_forall. intros k Hin. apply in_map_iff in Hin as [k0 [E Hin]]. subst.
-      rewrite Forall_forall in Hf. specialize (Hf k0 Hin).
-      unfold sk_fire. destruct (sk_next k0) as [[t d]|]; [destruct (hp_rerun_due now t)|]; simpl; exact Hf.
-    + rewrite map_map.
-      replace (map (fun x => sk_chan (sk_fire now x)) (ss_searches p)) with (map sk_chan (ss_searches p)); [exact Hc|].
-      apply map_ext. intros k. unfold sk_fire. destruct (sk_next k) as [[t d]|]; [destruct (hp_rerun_due now t)|]; reflexivity.
+  - split; [apply sk_fire_keys_ok; exact Hk|]. simpl. rewrite map_map.
+    replace (map (fun x => sk_chan (sk_fire now x)) l) with (map sk_chan l); [exact Hc|].
+    apply map_ext. intros k. unfold sk_fire. destruct (sk_next k) as [[t d]|]; [destruct (hp_rerun_due now t)|]; reflexivity.
   - intros c. rewrite <- sends_events.
-    apply filter_key_perm; [apply Permutation_map; exact Hdue|].
-    rewrite map_map. simpl.
-    eapply Permutation_NoDup; [apply Permutation_sym; apply Permutation_map; exact Hdue|].
-    assert (Hn : NoDup (map rr_chan (armed (ss_searches p)))) by (apply armed_chans_nodup; eapply NoDup_app_l; exact Hc).
-    clear -Hn. induction (armed (ss_searches p)) as [|x t IH]; simpl; [constructor|].
-    inversion Hn; subst. destruct (rr_due now x); simpl; [|apply IH; assumption].
-    constructor; [|apply IH; assumption].
-    intros Hin. apply H1. apply in_map_iff in Hin as [y [E Hy]]. apply filter_In in Hy as [Hy _].
-    rewrite <- E. apply in_map. exact Hy.
-  - rewrite <- sends_queries. apply Permutation_map. apply Permutation_sym. exact Hdue.
+    pose proof (Hfm _ (fun r => [rr_ev r])) as He. rewrite flat_map_singleton in He.
+    assert (Hn : NoDup (map fst (map rr_ev (filter (rr_due now) (armed l))))).
+    { rewrite map_map. simpl.
+      assert (Hn : NoDup (map rr_chan (armed l))) by (apply armed_chans_nodup; eapply NoDup_app_l; exact Hc).
+      clear -Hn. induction (armed l) as [|x t IH]; simpl; [constructor|].
+      inversion Hn; subst. destruct (rr_due now x); simpl; [|apply IH; assumption].
+      constructor; [|apply IH; assumption].
+      intros Hin. apply H1. apply in_map_iff in Hin as [y [E Hy]]. apply filter_In in Hy as [Hy _].
+      rewrite <- E. apply in_map. exact Hy. }
+    apply filter_key_perm; [exact He|].
+    eapply Permutation_NoDup; [apply Permutation_sym; apply Permutation_map; exact He|exact Hn].
+  - rewrite <- sends_queries.
+    pose proof (Hfm _ (fun r => [rr_q r])) as Hq. rewrite flat_map_singleton in Hq.
+    apply Permutation_sym. exact Hq.
 Qed.
 
 (* ---------------------------------------------------------------- phase 7: closed channels *)
@@ -532,11 +704,11 @@ Qed.
 
 (* ---------------------------------------------------------------- one iteration *)
 Lemma step_rel s p i fut :
-  Rel s p -> Inv p (chans_of_calls (it_calls i) ++ fut) -> late_at p i = false ->
+  Rel s p -> Inv p (chans_of_calls (it_calls i) ++ fut) ->
   Rel (fst (step s i)) (fst (sp_step p i)) /\ Inv (fst (sp_step p i)) fut
   /\ out_match (snd (sp_step p i)) (snd (step s i)) = true.
 Proof.
-  intros HR HI Hlate. unfold step, sp_step.
+  intros HR HI. unfold step, sp_step.
   (* 1 responses *)
   unfold fold_msgs, sp_responses.
   destruct HR as [R1 R2 R3 R4]. rewrite R1, R2.
@@ -546,14 +718,14 @@ Proof.
   assert (HR1 : Rel s1 p1) by (constructor; simpl; try reflexivity; assumption).
   assert (HI1 : Inv p1 (chans_of_calls (it_calls i) ++ fut)) by exact HI.
   (* 2 deadlines *)
-  destruct (timeouts_rel (it_now i) s1 p1 _ HR1 HI1 Hlate) as [s2 [p2 [e2 [H2a [H2b [HR2 HI2]]]]]].
+  destruct (timeouts_rel (it_now i) s1 p1 _ HR1 HI1) as [s2 [p2 [e2 [H2a [H2b [HR2 HI2]]]]]].
   rewrite H2a, H2b.
   (* 3 calls *)
   unfold fold_calls, sp_calls.
-  destruct (calls_rel (it_now i) (it_calls i) s2 p2 fut [] [] HR2 HI2) as [s3 [p3 [e3 [q3 [H3a [H3b [HR3 HI3]]]]]]].
+  destruct (calls_rel (it_now i) (it_calls i) s2 p2 fut [] [] _ HR2 HI2) as [s3 [p3 [e3 [q3 [orph3 [H3a [H3b [HR3 HI3]]]]]]]].
   rewrite H3a, H3b.
   (* 4 sends *)
-  destruct (sends_rel (it_now i) s3 p3 fut HR3 HI3) as [s4 [p4 [e4m [e4s [q4m [q4s [H4a [H4b [HR4 [HI4 [He4 Hq4]]]]]]]]]]].
+  destruct (sends_rel (it_now i) s3 p3 fut orph3 HR3 HI3) as [s4 [p4 [e4m [e4s [q4m [q4s [H4a [H4b [HR4 [HI4 [He4 Hq4]]]]]]]]]]].
   rewrite H4a, H4b.
   (* 5 refresh, 6 evict *)
   unfold do_refresh, sp_refresh. destruct HR4 as [R41 R42 R43 R44]. rewrite R41, R42.
@@ -579,12 +751,12 @@ Qed.
 
 (* ---------------------------------------------------------------- histories *)
 Lemma run_rel h : forall s p,
-  Rel s p -> Inv p (flat_map (fun i => chans_of_calls (it_calls i)) h) -> late_from p h = false ->
+  Rel s p -> Inv p (flat_map (fun i => chans_of_calls (it_calls i)) h) ->
   outs_match (sp_run_from p h) (run_from s h) = true.
 Proof.
-  induction h as [|i t IH]; intros s p HR HI Hl; simpl; [reflexivity|].
-  simpl in Hl. apply orb_false_iff in Hl as [Hl1 Hl2]. simpl in HI.
-  destruct (step_rel s p i _ HR HI Hl1) as [HR' [HI' Ho]].
+  induction h as [|i t IH]; intros s p HR HI; simpl; [reflexivity|].
+  simpl in HI.
+  destruct (step_rel s p i _ HR HI) as [HR' [HI' Ho]].
   destruct (step s i) as [s' o] eqn:Es. destruct (sp_step p i) as [p' o'] eqn:Ep. simpl in *.
   rewrite Ho. simpl. apply IH; assumption.
 Qed.
@@ -598,16 +770,13 @@ Proof.
   congruence.
 Qed.
 
-(* the model of the code satisfies the property's checker on every well-formed history that is
-   never late *)
-Theorem model_refines_spec : forall h,
-  wf_hist h = true -> late h = false -> chk_C17 h (run h) = true.
+(* the model of the code satisfies the property's checker on every well-formed history *)
+Theorem model_refines_spec : forall h, wf_hist h = true -> chk_C17 h (run h) = true.
 Proof.
-  intros h Hwf Hl. unfold chk_C17, sp_run, run. apply run_rel.
+  intros h Hwf. unfold chk_C17, sp_run, run. apply run_rel.
   - constructor; simpl; try reflexivity; constructor.
-  - split; [split; constructor|]. simpl.
+  - split; [split; [|split]; constructor|]. simpl.
     unfold wf_hist in Hwf. apply andb_true_iff in Hwf as [_ Hwf]. apply nodupb_NoDup. exact Hwf.
-  - exact Hl.
 Qed.
 
 (* ---------------------------------------------------------------- the late wake-up *)
@@ -618,20 +787,18 @@ Definition late_witness : list iter :=
   [ mkIter 1000000 [CResolve name_a_local (Some 1001) 1] [];
     mkIter 1001001 [] [] ].
 
-Lemma late_refuted :
-  wf_hist late_witness = true /\ late late_witness = true /\ chk_C17 late_witness (run late_witness) = false.
+(* since the repair (a retransmission whose search has ended does not run) the trace is what
+   the property prescribes: SearchTimeout, SearchStopped, the channel closes, nothing else *)
+Lemma late_now_ok :
+  wf_hist late_witness = true /\ late late_witness = true /\ chk_C17 late_witness (run late_witness) = true.
 Proof. vm_compute. auto. Qed.
 
-(* what the model of the code does there: after SearchTimeout and SearchStopped it delivers
-   SearchStarted again and sends the A+AAAA query at the deadline, and a retransmission
-   stays queued although no search is open *)
 Lemma late_behaviour :
   map (fun o => (o_events o, o_queries o)) (run late_witness)
   = [ ([(1, EStarted name_a_local)], [host_query name_a_local]);
-      ([(1, ETimeout name_a_local); (1, EStopped name_a_local); (1, EStarted name_a_local)],
-       [host_query name_a_local]) ]
+      ([(1, ETimeout name_a_local); (1, EStopped name_a_local); (1, EClosed)], []) ]
   /\ s_res (state_after st0 late_witness) = []
-  /\ map rr_time (s_retr (state_after st0 late_witness)) = [1003001].
+  /\ s_retr (state_after st0 late_witness) = [].
 Proof. vm_compute. auto. Qed.
 
 (* ---------------------------------------------------------------- a non-trivial history *)
